@@ -36,7 +36,9 @@ fn main() {
     let cmd = args.get(1).map(String::as_str).unwrap_or("help");
     let env_seed = std::env::var("VERIF_SEED").ok().and_then(|s| s.parse::<u64>().ok());
     let seed = arg_val(&args, "--seed").and_then(|s| s.parse().ok()).or(env_seed).unwrap_or(0x5EED);
-    let jobs = arg_val(&args, "--jobs").and_then(|s| s.parse().ok()).unwrap_or_else(|| std::thread::available_parallelism().map_or(4, |n| n.get()));
+    let ncpu = std::thread::available_parallelism().map_or(4, |n| n.get());
+    let jobs_cli: Option<usize> = arg_val(&args, "--jobs").and_then(|s| s.parse().ok());
+    let jobs = jobs_cli.unwrap_or(ncpu);
     let tier = match arg_val(&args, "--tier").or_else(|| std::env::var("VERIF_TIER").ok()).as_deref() {
         Some("thorough") => Tier::Thorough,
         _ => Tier::Quick,
@@ -51,7 +53,7 @@ fn main() {
         "check" => {
             let prop = args.get(2).cloned().unwrap_or_default();
             match scenarios::for_property(&prop) {
-                Some(s) => driver::check(s, &prop, tier, seed, jobs, runs, max_wall),
+                Some(s) => driver::check(s, &prop, tier, seed, jobs_cli.unwrap_or_else(|| s.jobs_hint().min(ncpu)), runs, max_wall),
                 None => {
                     eprintln!("gixsim: no scenario decides property {prop}");
                     2
